@@ -86,6 +86,7 @@ def install_component_validate(I):
         p = cur()
         n = len(p.ghost.setdefault("component_validate_calls", []))
         p.ghost["component_validate_calls"].append((self_obj, check_obj, args, kw))
+        p.ghost["component_dtype_at_call"] = fld(self_obj, "_dtype") if isinstance(self_obj, Obj) and "_dtype" in self_obj.field_types else None
         k = p.choose([(nm, None) for nm, _ in OUTCOMES], f"component.validate#{n}")
         p.ghost["component_outcome"] = OUTCOMES[k][0]
         if k == 0:
@@ -173,6 +174,13 @@ class RunSchemaComponentChecks(Contract):
             if len(calls) == 1:
                 _, obj, args, kw = calls[0]
                 out["on_the_object_it_was_given_inplace"] = obj is fr.locals["check_obj"] and kw.get("inplace") is True and kw.get("lazy") is fr.locals["lazy"]
+                # DataFrameSchema(dtype=...): "overrides the data types specified in any of the COLUMNS" - the index keeps its own
+                sdt = fld0(fr.locals["schema"], "dtype")
+                at_call = p.ghost.get("component_dtype_at_call")
+                if comp.cls is Column:
+                    out["a_column_is_validated_under_the_dataframe_dtype_if_there_is_one"] = at_call is (sdt if sdt is not None else fld0(comp, "_dtype"))
+                else:
+                    out["an_index_is_validated_under_its_own_dtype"] = at_call is fld0(comp, "_dtype")
             cp = fr.locals["check_passed"]
             out["recorded_flags_are_true"] = isinstance(cp, SymSeq) and all(x is True for x in cp.appended)
             cr = fr.locals["check_results"]
